@@ -1,13 +1,18 @@
-// C13 runner: every parrot against scripted servers of every version range: honest servers with
+// C13 runner: every parrot, custom specs (version lists with holes, no supported_versions with a raised
+// minimum, TLSVersMax below the list) and caller-side Config variations (pre-set bounds, a *Config reused
+// after another parrot) against scripted servers of every version range: honest servers with
 // MaxVersion 1.0..1.3, legacy servers that negotiate from legacy_version only (ignoring
 // supported_versions), servers that force a version, raw version-field overwrites, with the RFC 8446
 // downgrade sentinel set by the library's rule / omitted / forced. Emits (a) one instance case per
 // parrot (spec TLSVersMin/TLSVersMax, the supported_versions list, what reached Config and the wire),
-// (b) decision cases compared with Model/Negotiate.v, (c) the property's own oracle on the Go side.
+// (b) decision cases compared with Model/Negotiate.v, (c) the property's own oracle on the Go side,
+// (d) two-connection histories over a shared ClientSessionCache (a TLS 1.2 session obtained first, then a
+// TLS 1.2 answer with / without the sentinel, resumed or not) compared with Model/NegotiateSess.v.
 package main
 
 import (
 	"fmt"
+	"net"
 	"os"
 	"strings"
 	"sync"
@@ -121,18 +126,125 @@ func advertised(w *hs.WireHello, specmin uint16) []uint16 {
 	return out
 }
 
-type outcome struct {
+// client: who connects. mkSpec != nil = a custom spec (fresh per connection: ApplyPreset mutates it);
+// cfgMode = how the caller's *Config looks before UClient gets it.
+type client struct {
 	name    string
+	id      tls.ClientHelloID
+	mkSpec  func() *tls.ClientHelloSpec
+	cfgMode string // "", "wide" (Min 1.0 / Max 1.3 pre-set), "narrow" (Min = Max = 1.2 pre-set), "reused" (same *Config used by a Firefox_102 UConn before)
+}
+
+func (cl client) key() string {
+	if cl.cfgMode == "" {
+		return cl.name
+	}
+	return cl.name + "+cfg-" + cl.cfgMode
+}
+
+type outcome struct {
+	cl      client
 	sc      scenario
 	applies bool
 	res     *hs.Result
 	script  *tls.VerifServerScript
 	specmin uint16
-	custom  bool
 }
 
-func runOne(p *hs.PKI, name string, id tls.ClientHelloID, spec *tls.ClientHelloSpec, sc scenario, seed int64) *outcome {
-	o := &outcome{name: name, sc: sc, custom: spec != nil}
+func withVersions(base tls.ClientHelloID, versions []uint16, min, max uint16, dropExt bool) func() *tls.ClientHelloSpec {
+	return func() *tls.ClientHelloSpec {
+		sp, err := tls.UTLSIdToSpec(base)
+		if err != nil {
+			return nil
+		}
+		sp.TLSVersMin, sp.TLSVersMax = min, max
+		var exts []tls.TLSExtension
+		for _, e := range sp.Extensions {
+			if sv, ok := e.(*tls.SupportedVersionsExtension); ok {
+				if dropExt {
+					continue
+				}
+				if versions != nil {
+					sv.Versions = append([]uint16(nil), versions...)
+				}
+			}
+			exts = append(exts, e)
+		}
+		sp.Extensions = exts
+		return &sp
+	}
+}
+
+// customClients: specs the predefined parrots do not cover.
+func customClients() []client {
+	V10, V11, V12, V13 := uint16(tls.VersionTLS10), uint16(tls.VersionTLS11), uint16(tls.VersionTLS12), uint16(tls.VersionTLS13)
+	return []client{
+		// TLSVersMax below what the extension lists (witness of C13_canary_wire_before_fix_refuted)
+		{name: "custom-max-below-offered", id: tls.HelloCustom, mkSpec: withVersions(tls.HelloFirefox_102, nil, V12, V12, false)},
+		// supported_versions lists with a hole, bounds derived from the list (TLSVersMin = TLSVersMax = 0)
+		{name: "custom-sv-12-10", id: tls.HelloCustom, mkSpec: withVersions(tls.HelloFirefox_102, []uint16{V12, V10}, 0, 0, false)},
+		{name: "custom-sv-grease-13-11", id: tls.HelloCustom, mkSpec: withVersions(tls.HelloFirefox_102, []uint16{tls.GREASE_PLACEHOLDER, V13, V11}, 0, 0, false)},
+		{name: "custom-sv-13-10", id: tls.HelloCustom, mkSpec: withVersions(tls.HelloFirefox_102, []uint16{V13, V10}, V10, V13, false)},
+		// no supported_versions extension, minimum raised above the library default
+		{name: "custom-nosv-min12", id: tls.HelloCustom, mkSpec: withVersions(tls.HelloChrome_58, nil, V12, V12, false)},
+		{name: "custom-nosv-min11", id: tls.HelloCustom, mkSpec: withVersions(tls.HelloIOS_11_1, nil, V11, V12, false)},
+		// a TLS 1.3 parrot stripped of the extension and capped at 1.2
+		{name: "custom-nosv-stripped", id: tls.HelloCustom, mkSpec: withVersions(tls.HelloFirefox_105, nil, V12, V12, true)},
+	}
+}
+
+// specMinimum: the spec's minimum version as the spec itself states it (NOT what reached Config):
+// TLSVersMin if set; with both bounds 0 the lowest non-GREASE entry of its supported_versions extension,
+// or TLS 1.0 without one (u_conn.go:696-735). nil spec (HelloGolang): the Config minimum, 1.2 if unset.
+func specMinimum(sp *tls.ClientHelloSpec, view tls.VerifClientView) uint16 {
+	if sp == nil {
+		if view.ConfigMinVersion != 0 {
+			return view.ConfigMinVersion
+		}
+		return tls.VersionTLS12
+	}
+	if sp.TLSVersMin != 0 || sp.TLSVersMax != 0 {
+		return sp.TLSVersMin
+	}
+	min := uint16(0)
+	found := false
+	for _, e := range sp.Extensions {
+		if sv, ok := e.(*tls.SupportedVersionsExtension); ok {
+			found = true
+			for _, v := range sv.Versions {
+				if !hs.IsGREASE(v) && (min == 0 || v < min) {
+					min = v
+				}
+			}
+		}
+	}
+	if !found {
+		return tls.VersionTLS10
+	}
+	return min
+}
+
+// clientConfig: the *Config the caller hands to UClient, per cfgMode.
+func clientConfig(p *hs.PKI, mode string) *tls.Config {
+	cfg := p.ClientConfig()
+	switch mode {
+	case "wide":
+		cfg.MinVersion, cfg.MaxVersion = tls.VersionTLS10, tls.VersionTLS13
+	case "narrow":
+		cfg.MinVersion, cfg.MaxVersion = tls.VersionTLS12, tls.VersionTLS12
+	case "reused":
+		// the same *Config served a Firefox_102 connection before (SetTLSVers writes the spec's bounds into it)
+		a, b := net.Pipe()
+		u := tls.UClient(a, cfg, tls.HelloFirefox_102)
+		u.BuildHandshakeState()
+		a.Close()
+		b.Close()
+	}
+	return cfg
+}
+
+func runOne(p *hs.PKI, cl client, sc scenario, seed int64) *outcome {
+	o := &outcome{cl: cl, sc: sc}
 	rng := vh.NewRand(seed)
 	script := &tls.VerifServerScript{}
 	script.OnClientHello = func(raw []byte) {
@@ -148,49 +260,140 @@ func runOne(p *hs.PKI, name string, id tls.ClientHelloID, spec *tls.ClientHelloS
 		scfg.Certificates = []tls.Certificate{p.RSA, p.ECDSA}
 	}
 	o.script = script
-	o.res = hs.Run(hs.Opts{ID: id, Spec: spec, ClientCfg: p.ClientConfig(), ServerCfg: scfg, Script: script})
-	// the spec's effective minimum as SetTLSVers wrote it into Config (spec TLSVersMin, or derived)
-	o.specmin = o.res.View.ConfigMinVersion
+	var spec *tls.ClientHelloSpec
+	if cl.mkSpec != nil {
+		spec = cl.mkSpec()
+	}
+	o.res = hs.Run(hs.Opts{ID: cl.id, Spec: spec, ClientCfg: clientConfig(p, cl.cfgMode), ServerCfg: scfg, Script: script})
+	if cl.mkSpec != nil {
+		o.specmin = specMinimum(cl.mkSpec(), o.res.View) // a pristine copy: ApplyPreset rewrote GREASE in the used one
+	} else {
+		o.specmin = specMinimum(o.res.Spec, o.res.View)
+	}
 	return o
 }
 
-// customSpec: Firefox_102's hello with TLSVersMin/TLSVersMax = 1.2 while its supported_versions extension
-// still lists {1.3, 1.2}: the witness of C13_canary_wire_before_fix_refuted.
-func customSpec() *tls.ClientHelloSpec {
-	sp, err := tls.UTLSIdToSpec(tls.HelloFirefox_102)
-	if err != nil {
+func sentinelOf(r *hs.Result) bool {
+	rnd := r.ServerHelloRandom
+	if !r.ServerHelloSeen {
+		rnd = r.Trace.ServerRandom
+	}
+	return hs.TailOf(rnd) != 0
+}
+
+// ---- histories over a shared session cache ----
+type history struct {
+	cl      client
+	variant string // resume-sentinel, fresh-sentinel, resume-clean, fresh-clean
+	r1, r2  *hs.Result
+	script2 *tls.VerifServerScript
+	specmin uint16
+}
+
+func runHistory(p *hs.PKI, cl client, variant string) *history {
+	h := &history{cl: cl, variant: variant}
+	ccfg := clientConfig(p, cl.cfgMode)
+	ccfg.ClientSessionCache = tls.NewLRUClientSessionCache(4)
+	var keyA, keyB [32]byte
+	copy(keyA[:], "verif-c13-ticket-key-A----------")
+	copy(keyB[:], "verif-c13-ticket-key-B----------")
+	// connection 1: a TLS 1.2 server that issues a ticket
+	s1 := p.ServerConfig(alpnPrefs...)
+	s1.MaxVersion = tls.VersionTLS12
+	s1.SessionTicketsDisabled = false
+	s1.SessionTicketKey = keyA
+	mk := func() *tls.ClientHelloSpec {
+		if cl.mkSpec != nil {
+			return cl.mkSpec()
+		}
 		return nil
 	}
-	sp.TLSVersMin = tls.VersionTLS12
-	sp.TLSVersMax = tls.VersionTLS12
-	return &sp
+	h.r1 = hs.Run(hs.Opts{ID: cl.id, Spec: mk(), ClientCfg: ccfg, ServerCfg: s1, Script: &tls.VerifServerScript{}})
+	// connection 2: TLS 1.2 again, from a server that could do 1.3 (sentinel by the library's rule) or could not
+	s2 := p.ServerConfig(alpnPrefs...)
+	s2.SessionTicketsDisabled = false
+	s2.SessionTicketKey = keyA
+	if strings.HasPrefix(variant, "fresh-") {
+		s2.SessionTicketKey = keyB // the ticket cannot be decrypted: full handshake
+	}
+	h.script2 = &tls.VerifServerScript{}
+	if strings.HasSuffix(variant, "-sentinel") {
+		s2.MaxVersion = tls.VersionTLS13
+		h.script2.ForceVersion = tls.VersionTLS12
+	} else {
+		s2.MaxVersion = tls.VersionTLS12
+	}
+	h.r2 = hs.Run(hs.Opts{ID: cl.id, Spec: mk(), ClientCfg: ccfg, ServerCfg: s2, Script: h.script2})
+	if cl.mkSpec != nil {
+		h.specmin = specMinimum(cl.mkSpec(), h.r2.View)
+	} else {
+		h.specmin = specMinimum(h.r2.Spec, h.r2.View)
+	}
+	return h
 }
 
 func run(c *vh.Ctx) {
 	p := hs.SharedPKI()
-	parrots := hs.Parrots()
 	scs := scenarios()
 	type job struct {
-		name string
-		id   tls.ClientHelloID
-		spec *tls.ClientHelloSpec
+		cl   client
 		sc   scenario
 		seed int64
 	}
 	var jobs []job
-	for pi, pr := range parrots {
+	quick := c.Tier == "quick"
+	for pi, pr := range hs.Parrots() {
 		for si, sc := range scs {
 			// quick tier: the legacy servers, honest 1.2/1.3 servers and the forced 1.2 sentinel always; the rest rotates with the seed
 			always := strings.HasPrefix(sc.name, "legacy-") || sc.name == "honest-max1.2" || sc.name == "honest-max1.3" || sc.name == "force1.2-canary-tls12"
-			if c.Tier == "quick" && !always && (pi+si+int(c.Seed))%3 != 0 {
+			if quick && !always && (pi+si+int(c.Seed))%4 != 0 {
 				continue
 			}
-			jobs = append(jobs, job{pr.Name, pr.ID, nil, sc, c.Seed*1000003 + int64(pi)*1009 + int64(si)})
+			jobs = append(jobs, job{client{name: pr.Name, id: pr.ID}, sc, c.Seed*1000003 + int64(pi)*1009 + int64(si)})
 		}
 	}
-	// corpus: the custom spec whose TLSVersMax is below what its extension lists, against every scenario
-	for si, sc := range scs {
-		jobs = append(jobs, job{"custom-max-below-offered", tls.HelloCustom, customSpec(), sc, c.Seed*1000003 + 999983 + int64(si)})
+	// corpus: the custom specs against every scenario
+	customs := customClients()
+	for ci, cl := range customs {
+		for si, sc := range scs {
+			jobs = append(jobs, job{cl, sc, c.Seed*1000003 + 999983 + int64(ci)*977 + int64(si)})
+		}
+	}
+	// caller-side Config variations: pre-set bounds wider / narrower than the spec, a *Config reused after Firefox_102;
+	// against the servers that ignore supported_versions or are limited to old versions
+	var varied []client
+	for _, cl := range customs {
+		if strings.HasPrefix(cl.name, "custom-nosv") || cl.name == "custom-sv-12-10" {
+			varied = append(varied, cl)
+		}
+	}
+	for _, n := range []string{"Chrome_58", "Firefox_55", "Android_11_OkHttp", "IOS_12_1", "Firefox_105", "Chrome_120", "Firefox_102"} {
+		if pr, ok := hs.ParrotByName(n); ok {
+			varied = append(varied, client{name: pr.Name, id: pr.ID})
+		}
+	}
+	if !quick {
+		varied = nil
+		varied = append(varied, customs...)
+		for _, pr := range hs.Parrots() {
+			varied = append(varied, client{name: pr.Name, id: pr.ID})
+		}
+	}
+	for vi, cl := range varied {
+		for mi, mode := range []string{"wide", "narrow", "reused"} {
+			if quick && mode == "narrow" && cl.mkSpec == nil {
+				continue // quick: the narrow pre-set only for the custom specs
+			}
+			for si, sc := range scs {
+				old := strings.HasPrefix(sc.name, "legacy-") || strings.HasPrefix(sc.name, "honest-") || sc.name == "force1.0-canary-none" || sc.name == "force1.1-canary-none"
+				if !old {
+					continue
+				}
+				v := cl
+				v.cfgMode = mode
+				jobs = append(jobs, job{v, sc, c.Seed*1000003 + 777781 + int64(vi)*131 + int64(mi)*17 + int64(si)})
+			}
+		}
 	}
 	out := make([]*outcome, len(jobs))
 	var wg sync.WaitGroup
@@ -201,8 +404,40 @@ func run(c *vh.Ctx) {
 		go func(i int, j job) {
 			defer wg.Done()
 			defer func() { <-sem }()
-			out[i] = runOne(p, j.name, j.id, j.spec, j.sc, j.seed)
+			out[i] = runOne(p, j.cl, j.sc, j.seed)
 		}(i, j)
+	}
+	// histories
+	var hcl []client
+	hnames := []string{"Chrome_102", "Firefox_105", "Chrome_133", "Firefox_102", "Chrome_58", "Safari_16_0"}
+	if !quick {
+		hnames = nil
+		for _, pr := range hs.Parrots() {
+			hnames = append(hnames, pr.Name)
+		}
+	}
+	for _, n := range hnames {
+		if pr, ok := hs.ParrotByName(n); ok {
+			hcl = append(hcl, client{name: pr.Name, id: pr.ID})
+		}
+	}
+	hcl = append(hcl, client{name: "Golang", id: tls.HelloGolang})
+	hcl = append(hcl, client{name: "Chrome_102", id: tls.HelloChrome_102, cfgMode: "wide"})
+	var hists []*history
+	var hmu sync.Mutex
+	for _, cl := range hcl {
+		for _, variant := range []string{"resume-sentinel", "fresh-sentinel", "resume-clean", "fresh-clean"} {
+			wg.Add(1)
+			sem <- struct{}{}
+			go func(cl client, variant string) {
+				defer wg.Done()
+				defer func() { <-sem }()
+				h := runHistory(p, cl, variant)
+				hmu.Lock()
+				hists = append(hists, h)
+				hmu.Unlock()
+			}(cl, variant)
+		}
 	}
 	wg.Wait()
 
@@ -211,18 +446,19 @@ func run(c *vh.Ctx) {
 	var inconsistent []string
 	for _, o := range out {
 		r := o.res
+		name := o.cl.key()
 		if r.BuildErr != nil || r.Wire == nil {
 			c.Count("build-error")
 			if debug {
-				fmt.Println("BUILD", o.name, r.BuildErr)
+				fmt.Println("BUILD", name, r.BuildErr)
 			}
 			continue
 		}
 		w := r.Wire
 		vt, wt := hs.ViewTerm(r), hs.WireTerm(w)
 		adv := advertised(w, o.specmin)
-		if !inst[o.name] {
-			inst[o.name] = true
+		if !inst[name] {
+			inst[name] = true
 			// instance: what the spec says, what reached Config, what reached the wire
 			var specMin, specMax uint16
 			if r.Spec != nil {
@@ -235,11 +471,12 @@ func run(c *vh.Ctx) {
 				}
 			}
 			if !consistent {
-				inconsistent = append(inconsistent, fmt.Sprintf("%s(spec %x..%x, accepts %x, advertises %x)", o.name, specMin, specMax, r.View.ClientVersions, adv))
+				inconsistent = append(inconsistent, fmt.Sprintf("%s(spec %x..%x, accepts %x, advertises %x)", name, specMin, specMax, r.View.ClientVersions, adv))
 			}
-			c.Case("instance", fmt.Sprintf("(CInst %s %d %s)", vt, o.specmin, wt), "inst/"+o.name, !consistent || w.HasSupportedVers,
-				map[string]any{"parrot": o.name, "spec_min": specMin, "spec_max": specMax, "config_versions": r.View.ClientVersions,
-					"wire_supported_versions": w.SupportedVersions, "wire_legacy_version": w.LegacyVersion, "consistent": consistent})
+			c.Case("instance", fmt.Sprintf("(CInst %s %d %s)", vt, o.specmin, wt), "inst/"+name, !consistent || w.HasSupportedVers,
+				map[string]any{"client": name, "spec_min": specMin, "spec_max": specMax, "config_versions": r.View.ClientVersions,
+					"hello_supported_versions": r.View.SupportedVersions, "wire_supported_versions": w.SupportedVersions,
+					"wire_legacy_version": w.LegacyVersion, "consistent": consistent})
 		}
 		if !o.applies {
 			c.Count("not-applicable")
@@ -247,21 +484,19 @@ func run(c *vh.Ctx) {
 		}
 		completed := r.ClientErr == nil
 		vers := r.ClientState.Version
-		sentinel := len(r.Trace.ServerRandom) == 32 && strings.HasPrefix(string(r.Trace.ServerRandom[24:]), "DOWNGRD") &&
-			(r.Trace.ServerRandom[31] == 0 || r.Trace.ServerRandom[31] == 1)
-		input := map[string]any{"parrot": o.name, "scenario": o.sc.name, "server_max_version": o.sc.maxVers, "server_acted_at": r.Trace.Version,
-			"hello_legacy_version": r.Trace.HelloVers, "hello_supported_version": r.Trace.HelloSV, "sentinel": sentinel,
-			"wire_supported_versions": w.SupportedVersions, "wire_legacy_version": w.LegacyVersion, "advertised": adv}
+		sentinel := sentinelOf(r)
+		input := map[string]any{"client": name, "config_mode": o.cl.cfgMode, "scenario": o.sc.name, "server_max_version": o.sc.maxVers, "server_acted_at": r.Trace.Version,
+			"hello_legacy_version": r.Trace.HelloVers, "hello_supported_version": r.Trace.HelloSV, "sentinel": sentinel, "spec_minimum": o.specmin,
+			"config_versions": r.View.ClientVersions, "wire_supported_versions": w.SupportedVersions, "wire_legacy_version": w.LegacyVersion, "advertised": adv}
 
 		// ---- (c) the property's own oracle ----
 		if completed && !hs.ContainsU16(adv, vers) {
-			c.Fail("version/"+o.name, fmt.Sprintf("client completed the handshake at version %x which its ClientHello did not advertise", vers),
+			c.Fail("version/"+name, fmt.Sprintf("client completed the handshake at version %x which its ClientHello did not advertise", vers),
 				input, map[string]any{"version": vers, "app_data": r.AppData}, adv)
 		}
 		if completed && vers <= tls.VersionTLS12 && sentinel && w.HasSupportedVers && hs.ContainsU16(w.SupportedVersions, tls.VersionTLS13) {
-			k := "canary/" + o.name
-			c.Fail(k, fmt.Sprintf("client offered TLS 1.3 and completed at %x although the ServerHello carried the downgrade sentinel", vers),
-				input, map[string]any{"version": vers, "random_tail": vh.Hex(r.Trace.ServerRandom[24:])}, "abort with illegal_parameter")
+			c.Fail("canary/"+name, fmt.Sprintf("client offered TLS 1.3 and completed at %x although the ServerHello carried the downgrade sentinel", vers),
+				input, map[string]any{"version": vers, "random_tail": vh.Hex(r.ServerHelloRandom[24:])}, "abort with illegal_parameter")
 		}
 
 		// ---- (b) decision correspondence ----
@@ -269,7 +504,7 @@ func run(c *vh.Ctx) {
 		if !ok || (r.AlertFromServer >= 0 && !completed) {
 			c.Count("server-declined")
 			if debug {
-				fmt.Printf("%-28s %-24s SERVER DECLINED serr=%q cerr=%q\n", o.name, o.sc.name, errStr(r.ServerErr), errStr(r.ClientErr))
+				fmt.Printf("%-34s %-24s SERVER DECLINED serr=%q cerr=%q\n", name, o.sc.name, errStr(r.ServerErr), errStr(r.ClientErr))
 			}
 			continue
 		}
@@ -277,12 +512,18 @@ func run(c *vh.Ctx) {
 		if i := strings.Index(kind, "-canary"); i > 0 && strings.HasPrefix(kind, "force") {
 			kind = "force-low" + kind[i:]
 		}
-		c.Case(kind, fmt.Sprintf("(CVers %s %d %s %s %s)", vt, o.specmin, wt, fl, hs.ObsTerm(r)), o.sc.name+"/"+o.name,
-			completed || sentinel || !hs.ContainsU16(adv, r.Trace.Version),
-			map[string]any{"parrot": o.name, "scenario": o.sc.name, "completed": completed, "version": vers, "client_error": errStr(r.ClientErr), "alert": hs.ClientAlert(r)})
-		if debug {
-			fmt.Printf("%-28s %-24s acted=%x completed=%-5v vers=%x sentinel=%-5v alert=%-3d adv=%x cerr=%q serr=%q\n", o.name, o.sc.name, r.Trace.Version, completed, vers, sentinel, hs.ClientAlert(r), adv, errStr(r.ClientErr), errStr(r.ServerErr))
+		if o.cl.cfgMode != "" {
+			kind = "cfg-" + o.cl.cfgMode
 		}
+		c.Case(kind, fmt.Sprintf("(CVers %s %d %s %s %s)", vt, o.specmin, wt, fl, hs.ObsTerm(r)), o.sc.name+"/"+name,
+			completed || sentinel || !hs.ContainsU16(adv, r.Trace.Version),
+			map[string]any{"client": name, "scenario": o.sc.name, "completed": completed, "version": vers, "client_error": errStr(r.ClientErr), "alert": hs.ClientAlert(r)})
+		if debug {
+			fmt.Printf("%-34s %-24s acted=%x completed=%-5v vers=%x sentinel=%-5v alert=%-3d adv=%x cerr=%q serr=%q\n", name, o.sc.name, r.Trace.Version, completed, vers, sentinel, hs.ClientAlert(r), adv, errStr(r.ClientErr), errStr(r.ServerErr))
+		}
+	}
+	for _, h := range hists {
+		emitHistory(c, h, debug)
 	}
 	c.Extra["specs_with_config_range_outside_advertised"] = inconsistent
 	if debug {
@@ -292,6 +533,53 @@ func run(c *vh.Ctx) {
 		for _, k := range vh.SortedKeys(c.Dist) {
 			fmt.Println(k, c.Dist[k])
 		}
+	}
+}
+
+func emitHistory(c *vh.Ctx, h *history, debug bool) {
+	name := h.cl.key()
+	r1, r2 := h.r1, h.r2
+	if r1.BuildErr != nil || r2.BuildErr != nil || r1.Wire == nil || r2.Wire == nil || r1.ClientErr != nil {
+		c.Count("history-setup-failed")
+		if debug {
+			fmt.Printf("HISTORY %-20s %-16s setup failed: %v %v %v\n", name, h.variant, r1.BuildErr, r1.ClientErr, r2.BuildErr)
+		}
+		return
+	}
+	w1, w2 := r1.Wire, r2.Wire
+	offered := len(w2.SessionTicket) > 0
+	completed := r2.ClientErr == nil
+	vers := r2.ClientState.Version
+	sentinel := sentinelOf(r2)
+	adv := advertised(w2, h.specmin)
+	input := map[string]any{"client": name, "history": h.variant, "first_connection": map[string]any{"version": r1.ClientState.Version, "suite": r1.ClientState.CipherSuite},
+		"second_hello_offers_ticket": offered, "sentinel": sentinel, "wire_supported_versions": w2.SupportedVersions, "advertised": adv}
+	// ---- the property's own oracle, on the second connection ----
+	if completed && !hs.ContainsU16(adv, vers) {
+		c.Fail("version/"+name, fmt.Sprintf("history %s: client completed at version %x which its ClientHello did not advertise", h.variant, vers), input,
+			map[string]any{"version": vers, "resumed": r2.ClientState.DidResume}, adv)
+	}
+	if completed && vers <= tls.VersionTLS12 && sentinel && w2.HasSupportedVers && hs.ContainsU16(w2.SupportedVersions, tls.VersionTLS13) {
+		c.Fail("canary-after-session/"+name, fmt.Sprintf("history %s: client offered TLS 1.3 (and a cached TLS %x session) and completed at %x although the ServerHello carried the downgrade sentinel",
+			h.variant, r1.ClientState.Version, vers), input,
+			map[string]any{"version": vers, "resumed": r2.ClientState.DidResume, "random_tail": vh.Hex(r2.ServerHelloRandom[24:])}, "abort with illegal_parameter")
+	}
+	if !r2.ServerHelloSeen || (r2.AlertFromServer >= 0 && !completed) {
+		c.Count("server-declined")
+		return
+	}
+	sess := "None"
+	if offered {
+		sess = fmt.Sprintf("(Some (mkSess %d %d %s))", r1.ClientState.Version, r1.ClientState.CipherSuite, vh.Bool(w1.HasEMS))
+	}
+	alpn, _ := hs.NegotiatedALPN(alpnPrefs, w2.ALPN)
+	fl := hs.Flight12FromSeen(r2, alpn, uint16(r2.Trace.Group))
+	c.Case("history-"+h.variant, fmt.Sprintf("(CHist %s %d %s %s %s %s %s %s)", hs.ViewTerm(r2), h.specmin, hs.WireTerm(w2), sess, vh.Bool(w2.HasEMS), fl,
+		hs.ObsTerm(r2), vh.Bool(r2.ClientState.DidResume)), "history/"+h.variant+"/"+name, true,
+		map[string]any{"client": name, "history": h.variant, "offers_ticket": offered, "completed": completed, "resumed": r2.ClientState.DidResume, "sentinel": sentinel})
+	if debug {
+		fmt.Printf("HISTORY %-20s %-16s ticket=%-5v completed=%-5v resumed=%-5v vers=%x sentinel=%-5v alert=%-3d cerr=%q serr=%q\n", name, h.variant, offered, completed,
+			r2.ClientState.DidResume, vers, sentinel, hs.ClientAlert(r2), errStr(r2.ClientErr), errStr(r2.ServerErr))
 	}
 }
 
